@@ -91,6 +91,23 @@ def undefined(params):
             _mk_eval(it, groups).evaluate(np.array([0, 1, 1, 2, 0, 5, 0, 0], np.uint8), np.array([0, 1, 1, 2, 0, 5, 0, 0], np.uint8), verbose=False)
         except Exception as e:
             bad.append(f"{it}: fully defined input rejected: {type(e).__name__}: {e}"[:160])
+        # densely labelled maps (no background voxel at all): the smallest label is an ordinary label and must be checked too
+        g2 = SegmentationClassGroups({"b": LabelGroup([2, 5])})
+        for which in ("pred", "ref"):
+            dense_bad = np.array([1, 1, 2, 2, 5, 5], np.uint8)   # label 1 is undefined in g2
+            dense_ok = np.array([2, 2, 2, 5, 5, 5], np.uint8)
+            pred, ref = (dense_bad, dense_ok) if which == "pred" else (dense_ok, dense_bad)
+            try:
+                _mk_eval(it, g2).evaluate(pred.copy(), ref.copy(), verbose=False)
+                bad.append(f"{it}: undefined label 1 in a {which} map without background was silently accepted")
+            except AssertionError:
+                pass
+            except Exception as e:
+                bad.append(f"{it}: unexpected {type(e).__name__}: {e}"[:160])
+        try:
+            _mk_eval(it, g2).evaluate(np.array([2, 2, 2, 5, 5, 5], np.uint8), np.array([2, 2, 5, 5, 5, 5], np.uint8), verbose=False)
+        except Exception as e:
+            bad.append(f"{it}: fully defined dense input rejected: {type(e).__name__}: {e}"[:160])
     return {"violated": bool(bad), "problems": bad}
 
 
